@@ -174,12 +174,24 @@ def main(tier):
                           dict(replay, after_history=got['result'], alone=want['result']))
         # monitors
         for c, rec in zip(calls, r['results']):
-            im_pre, im_post = rec['pre']['immutable'], rec['post']['immutable']
+            im_pre, im_post = dict(rec['pre']['immutable']), dict(rec['post']['immutable'])
+            g_pre, g_post = im_pre.pop('generic', {}), im_post.pop('generic', {})
             if immut0 is None:
-                immut0 = im_pre
-            if im_pre != immut0 or im_post != immut0:
-                run.violation('frame/immutable', f'a module-level object / shared default changed around {c["op"]}: {im_post} vs {immut0}', replay)
+                immut0 = (im_pre, g_pre)
+            if im_pre != immut0[0] or im_post != immut0[0]:
+                run.violation('frame/immutable', f'a module-level object / shared default changed around {c["op"]}: {im_post} vs {immut0[0]}', replay)
                 break
+            # generic frame: every module-level / class-level container and mutable default of the package (modules are imported
+            # lazily, so only the entries present in both snapshots are compared)
+            changed = [k for g in (g_pre, g_post) for k in g if k in immut0[1] and g[k] != immut0[1][k]]
+            changed += [k for k in g_post if k in g_pre and g_post[k] != g_pre[k]]
+            if changed:
+                k = changed[0]
+                run.violation(f'frame/container/{k.split(".")[-2] if "__defaults__" in k else k.split(".")[-1]}',
+                              f'process-wide container {k} changed around {c["op"]}: {g_post.get(k)} (before: {g_pre.get(k, immut0[1].get(k))})', replay)
+                break
+            for k in g_post:
+                immut0[1].setdefault(k, g_post[k]) if k not in g_pre else None
             # step_flag: the auto-link option is in force during the call only
             if c['op'] != 'new' and rec['pre']['auto_link'] != rec['post']['auto_link'] and not flag_reported:
                 flag_reported = True
